@@ -104,6 +104,26 @@ def rule_bind(ctx):
                "the call binds, and an argument named like another parameter is not passed in that parameter's place", node=c, func=f)
     if n < 3:
         raise AnalysisError("C11.bind found only %d call sites" % n)
+    # FileHandler.read / get_info decide by the NUMBER of parameters whether the user's function takes keyword arguments: the signature
+    # of a bound method does not list self, so nothing is added for methods
+    for meth, attr in (("read", "reader"), ("get_info", "info")):
+        h = ctx.func(HCOMMON, "FileHandler." + meth)
+        hflow = Flow(h)
+        cmp_ = [c for c in ast.walk(h.node) if isinstance(c, ast.Compare) and len(c.ops) == 1 and calls_in(c.left, "signature") and calls_in(c.left, "len")]
+        if len(cmp_) != 1 or not isinstance(cmp_[0].ops[0], ast.Gt):
+            raise AnalysisError("FileHandler.%s: the comparison len(signature(...).parameters) > n was not found" % meth)
+        rhs = hflow.resolve(cmp_[0].comparators[0], at=cmp_[0], depth=3)
+        t_ = str(norm(rhs)).replace(" ", "")
+        if t_ == "1":
+            okn = True
+        elif "ismethod" in t_:
+            okn = False
+        else:
+            raise AnalysisError("FileHandler.%s: parameter count %s the reader is compared with not understood" % (meth, t_))
+        ctx.ob("FileHandler.%s.kwargs_dispatch" % meth, okn, "keyword arguments are passed on iff len(signature(self.%s).parameters) > %s" % (attr, t_),
+               "> 1 (the file): inspect.signature of a bound method already leaves out self - adding 1 for methods drops read_args for a reader "
+               "`def read(self, file, first=None)`", node=cmp_[0], func=h,
+               witness=None if okn else {"reader": "Store().read with signature (file, first=None)", "read_args": {"first": 2}, "passed on": False})
 
 
 def rule_delete(ctx):
@@ -174,6 +194,22 @@ def rule_move(ctx):
     if not top:
         raise AnalysisError("_move_single_file: `if convert:` not found")
     ct, pl = arms(top[0], conv, f.body)
+    # "the new name is the file's own name" (a conversion in place, a target template generating the same names)
+    same = None
+    for st in flow.stmts:
+        if isinstance(st, ast.Assign) and isinstance(st.targets[0], ast.Name) and isinstance(st.value, ast.Compare) and len(st.value.ops) == 1 \
+                and isinstance(st.value.ops[0], ast.Eq):
+            sides = [str(norm(x_)).replace(" ", "") for x_ in (st.value.left, st.value.comparators[0])]
+            def names_file(t_, what):
+                return t_ in (what, "os.path.abspath(%s)" % what, "posixpath.abspath(%s)" % what, "os.path.realpath(%s)" % what, "os.path.normpath(%s)" % what)
+            if (names_file(sides[0], new) and names_file(sides[1], "%s.path" % fi)) or (names_file(sides[1], new) and names_file(sides[0], "%s.path" % fi)):
+                same = st.targets[0].id
+    if same is not None and len(pl) == 1 and isinstance(pl[0], ast.If):
+        sp = arms(pl[0], same, pl)
+        if sp is not None:
+            if any(not isinstance(x_, (ast.Return, ast.Pass)) for x_ in sp[0]):
+                raise AnalysisError("_move_single_file: a file that has its new name already is not left alone: %s" % [norm(x_)[:40] for x_ in sp[0]])
+            pl = sp[1]
     # convert arm
     calls_c = [(c.lineno, norm(c)) for s in ct for c in calls_in(s)]
     rd = [c for s in ct for c in calls_in(s, "read") if norm(c.func) == "%s.read" % fs]
@@ -187,6 +223,14 @@ def rule_move(ctx):
         from ..flow import facts_at
         fa = facts_at(enclosing_stmt(rm[0]))
         okr = any(norm(e_) == cp and not tr_ for e_, tr_ in fa) and (flow._order(enclosing_stmt(rm[0])) > flow._order(enclosing_stmt(wr[0])) if wr else False)
+    own = False
+    from ..flow import facts_at
+    if okr and same is not None:
+        own = any(str(norm(e_)) == same and not tr_ for e_, tr_ in facts_at(enclosing_stmt(rm[0])))
+    ctx.ob("FileSet._move_single_file.convert.own_name", own or not rm, "removal of the original under: %s" % (
+        [("%s" if tr_ else "not %s") % norm(e_) for e_, tr_ in facts_at(enclosing_stmt(rm[0]))] if rm else "no removal"),
+        "... and not when the new name is the file's own name (conversion in place): the file just written would be removed as 'the original'",
+        node=rm[0] if rm else top[0], func=f, witness=None if (own or not rm) else {"move": "fs.move(fs.path, convert=str.upper)", "files afterwards": 0})
     ctx.ob("FileSet._move_single_file.convert.remove", okr, "removals in the convert arm: %s" % [norm(c) for c in rm],
            "`if not copy: os.remove(file.path)` after the write - never with copy, never before the new file exists", node=rm[0] if rm else top[0], func=f)
     # plain arm
